@@ -195,12 +195,36 @@ def gen_integer_cases(scale):
                 cases.append("val2 %s %s %s" % (f, t, " ".join("%d:%d" % p for p in ch)))
     return cases
 
+OFFSETS = [10 ** 6, 10 ** 8, 10 ** 9, 10 ** 12, -10 ** 8]
+
+def cluster_value(rng, off, kind, width):
+    """a value off + small, exactly representable as a double (|off| < 2^40, at most 10 fraction bits)"""
+    if kind == 0:                       # integers off + 0..width
+        return "%d" % (off + rng.range(0, width))
+    k = rng.range(0, width * 1024)      # multiples of 1/1024 (spread down to ~1e-3)
+    return "%d/1024" % (off * 1024 + k)
+
+def pick_cluster(rng):
+    off = rng.choice(OFFSETS)
+    kind = rng.below(2)
+    if kind == 0: width = rng.choice([1, 2, 6, 10])
+    else: width = rng.choice([0, 0, 1, 2, 10]) if rng.chance(1, 2) else -1
+    return off, kind, width
+
+def cluster_val(rng, cl):
+    off, kind, width = cl
+    if kind == 1 and width <= 0:        # spread of the order 1e-3 .. 1e-2
+        return "%d/1024" % (off * 1024 + rng.range(0, 1 if width == -1 else 10))
+    return cluster_value(rng, off, kind, width)
+
 def gen_agg(rng):
     nops = rng.range(2, 45)
-    vm = rng.below(5)
+    vm = rng.below(8)
     heavy = rng.below(3)
     const = rng.range(-50, 50)
+    cl = pick_cluster(rng); cl2 = pick_cluster(rng)
     ops = []
+    size = [0, 0, 0]
     while len(ops) < nops:
         r = rng.below(100)
         i = rng.below(3)
@@ -209,14 +233,46 @@ def gen_agg(rng):
             elif vm == 1: v = "%d/8" % rng.range(-8000, 8000)
             elif vm == 2: v = "%d/8" % (8000 + rng.range(-9, 9))
             elif vm == 3: v = "%d" % const
-            else: v = "%d/4" % rng.range(0, 400)
-            ops.append("A,%d,%s" % (i, v))
-        elif r < 78: ops.append("P,%d,%d,%d" % (i, rng.below(3), rng.below(3)))
-        elif r < 94: ops.append("PA,%d,%d" % (i, rng.below(3)))
-        else: ops.append("R,%d" % i)
+            elif vm == 4: v = "%d/4" % rng.range(0, 400)
+            elif vm in (5, 6): v = cluster_val(rng, cl)                         # large common offset, small spread
+            else: v = cluster_val(rng, cl if rng.chance(1, 2) else cl2) if rng.chance(2, 3) else "%d/8" % rng.range(-80, 80)   # mixed magnitudes
+            ops.append("A,%d,%s" % (i, v)); size[i] += 1
+        elif r < 78:
+            j, k = rng.below(3), rng.below(3)
+            if size[j] + size[k] > 300: continue
+            ops.append("P,%d,%d,%d" % (i, j, k)); size[i] = size[j] + size[k]
+        elif r < 94:
+            j = rng.below(3)
+            if size[i] + size[j] > 300: continue
+            ops.append("PA,%d,%d" % (i, j)); size[i] += size[j]
+        else: ops.append("R,%d" % i); size[i] = 0
+    return "agg " + " ".join(ops)
+
+def gen_agg_offset(rng):
+    """operands of 1..50 values around a large common offset, combined by +, += and chains of three"""
+    cl = pick_cluster(rng)
+    mixed = rng.chance(1, 6)
+    cls = [cl, pick_cluster(rng) if mixed else cl, pick_cluster(rng) if mixed and rng.chance(1, 2) else cl]
+    ops = []
+    small = rng.chance(1, 2)
+    for i in range(3):
+        n = rng.range(1, 8) if small else rng.range(1, 50)
+        if i == 2 and rng.chance(1, 4): n = 0
+        for _ in range(n): ops.append("A,%d,%s" % (i, cluster_val(rng, cls[i])))
+    shape = rng.below(8)
+    if shape == 0: ops += ["P,2,0,1"]
+    elif shape == 1: ops += ["PA,0,1"]
+    elif shape == 2: ops += ["PA,0,1", "PA,0,2"]                 # chain of three with +=
+    elif shape == 3: ops += ["P,0,0,1", "P,0,0,2"]               # chain of three with +
+    elif shape == 4: ops += ["P,1,1,2", "PA,0,1"]                # a += (b + c)
+    elif shape == 5: ops += ["PA,1,2", "P,2,0,1"]                # a + (b += c)
+    elif shape == 6: ops += ["P,2,0,1", "A,2,%s" % cluster_val(rng, cls[0]), "PA,2,0"]
+    else: ops += ["PA,0,1", "A,0,%s" % cluster_val(rng, cls[1]), "P,1,0,2", "PA,1,1"]
     return "agg " + " ".join(ops)
 
 DBL_MAX = Fraction((2 ** 53 - 1) * 2 ** 971)
+U = Fraction(1, 2 ** 53)
+agg_margin = [Fraction(0)]     # largest observed |error| / tolerance over the run (evidence)
 
 def agg_reference(case):
     """independent exact reference: the multiset each variable stands for, then the textbook definitions"""
@@ -236,11 +292,11 @@ def agg_reference(case):
     for l in g:
         n = len(l)
         if n == 0:
-            res.append((0, Fraction(0), Fraction(0), Fraction(0), DBL_MAX, -DBL_MAX, Fraction(1))); continue
+            res.append((0, Fraction(0), Fraction(0), Fraction(0), DBL_MAX, -DBL_MAX, Fraction(0), Fraction(0))); continue
         m = sum(l) / n
         ss = sum((x - m) ** 2 for x in l)
         res.append((n, m, ss / (n - 1) if n > 1 else Fraction(0), ss / n if n > 1 else Fraction(0), min(l), max(l),
-                    max(Fraction(1), max(abs(x) for x in l))))
+                    max(abs(x) for x in l), max(l) - min(l)))
     return res, combined
 
 def parse_model_q(s):
@@ -268,17 +324,27 @@ def cmp_agg(case, impl_line, model_line):
     for i in range(3):
         if len(ig) != 3 or len(ig[i]) != 6:
             return ("unparsable output: %r" % impl_line[:100], model_bad)
-        n, m, v1, v0, mn, mx, M = ref[i]
+        n, m, v1, v0, mn, mx, M, R = ref[i]
         names = ("count", "mean", "variance(1)", "variance(0)", "min", "max")
-        tol = (0, 1e-9 * M, 1e-9 * M * M, 1e-9 * M * M, 0, 0)
+        # Forward error of the numerically stable formulas (Welford update, Chan et al. pairwise combination) in
+        # double precision, u = 2^-53, for n values of magnitude <= M and range R = max - min:
+        #   |mean - exact| <= c n u M,   |nvar - exact| <= c (n^2 u M R + n^3 u^2 M^2 + n u R^2)
+        # (every delta is a difference of values/means within the range R, carrying the mean's error n u M).
+        # A formula that forms sums of squares has error ~ n u M^2 instead, i.e. larger by the factor M / (n R).
+        tm = 16 * n * U * M
+        tn = 16 * (n * n * U * M * R + n ** 3 * U * U * M * M + n * U * R * R)
+        tol = (0, tm, tn / (n - 1) if n > 1 else 0, tn / n if n > 1 else 0, 0, 0)
         for k in range(6):
             want = ref[i][k]
             try:
                 got = Fraction(ig[i][k]) if k == 0 else Fraction(float(ig[i][k]))
             except (ValueError, OverflowError):
                 return ("variable %d %s: got %s, exact value %s" % (i, names[k], ig[i][k], float(want)), model_bad)
-            if abs(got - want) > tol[k]:
-                return ("variable %d %s: got %s, exact value %.17g (values fed: %d)" % (i, names[k], ig[i][k], float(want), n), model_bad)
+            err = abs(got - want)
+            if err > tol[k]:
+                return ("variable %d %s: got %s, exact value %.17g, |error| %.3g > tolerance %.3g (values fed: %d, magnitude %.3g, range %.3g)"
+                        % (i, names[k], ig[i][k], float(want), float(err), float(tol[k]), n, float(M), float(R)), model_bad)
+            if tol[k] > 0 and err / tol[k] > agg_margin[0]: agg_margin[0] = err / tol[k]
     return (None, model_bad)
 
 # ------------------------------------------------------------------ cases
@@ -290,6 +356,8 @@ else:
     cases = list(corpus) + gen_integer_cases(scale)
     for k in range(12000 if ck.thorough() else 1500):
         cases.append(gen_agg(rng))
+    for k in range(6000 if ck.thorough() else 700):
+        cases.append(gen_agg_offset(rng))
     if ck.thorough():
         pass  # the full 2^32 sweep is run separately below (4 processes, unsanitized -O2 build)
     cases.append("sweep32 %d %d %d" % (rng.below(1 << 32), 1031 * (2 * rng.below(1000) + 1), 1 << 21))
@@ -455,14 +523,15 @@ if pr is not None and not pr["ok"]:
 ck.finish({
     "evaluations": evaluations,
     "distinct_nontrivial": nontriv,
-    "rule": "cases = corpus of defect witnesses, then every value of the 8/16-bit template instantiations and every pair of 8-bit values (enumerated inside harness and driver), structured (all one-/two-bit patterns, 2^i +-2, complements, masks) and random 32/64-bit values, pairs aimed at the top of the range, rotation counts -70..70 and int extremes, Aggregate histories over 3 variables (add, +, +=, reset; empty operands included), a strided 32-bit sweep against bit-loop references (thorough: all 2^32). Inputs per (function,type) are duplicate-free. non-trivial = input neither 0, -1 nor a power of two (one-argument), k does not divide n / rotation count not a multiple of w / a != b (two-argument), a history in which some + or += has two non-empty operands (Aggregate).",
+    "rule": "cases = corpus of defect witnesses, then every value of the 8/16-bit template instantiations and every pair of 8-bit values (enumerated inside harness and driver), structured (all one-/two-bit patterns, 2^i +-2, complements, masks) and random 32/64-bit values, pairs aimed at the top of the range, rotation counts -70..70 and int extremes, Aggregate histories over 3 variables (add, +, +=, reset; empty operands included; value families: small integers, eighths, constants, clusters with a large common offset 1e6/1e8/1e9/1e12/-1e8 and spread 1e-3..10 as integers or multiples of 1/1024, mixed magnitudes; dedicated operand sizes 1..50 combined by +, += and chains of three), a strided 32-bit sweep against bit-loop references (thorough: all 2^32). Inputs per (function,type) are duplicate-free. non-trivial = input neither 0, -1 nor a power of two (one-argument), k does not divide n / rotation count not a multiple of w / a != b (two-argument), a history in which some + or += has two non-empty operands (Aggregate).",
     "exhaustive": False,
     "samples": samples[:8],
     "input_distribution": stats,
+    "aggregate_max_error_over_tolerance": float(agg_margin[0]),
 }, assumptions=[
     "C++ integer semantics as modelled in coq/C20/Math.v: two's complement wrap on narrowing/unsigned arithmetic, integer promotion to int, arithmetic >> on signed values (g++/clang behaviour)",
     "compiler intrinsics (__builtin_clz/ctz/ffs/popcount/bswap, x86 rol/ror) are modelled by their specification; their agreement with the templates on the real code is checked by the correspondence run only",
     "inputs on which the C++ code has undefined behaviour (signed overflow) or loops forever are not executed; the property makes no claim there (value not representable / outside the documented domain)",
-    "Aggregate: exact rational model; floating-point rounding is outside the model (tolerance 1e-9 relative to the magnitude of the data); size_t overflow of counts outside the model",
+    "Aggregate: exact rational model; floating-point rounding is outside the model: doubles are compared with the exact value within the forward error bound of the stable formulas, 16 n u M for the mean and 16 (n^2 u M R + n^3 u^2 M^2 + n u R^2) for nvar (u = 2^-53, n values, magnitude M, range R), which a formula cancelling sums of squares (error ~ n u M^2) cannot meet for ill-conditioned data; all fed values are exactly representable doubles; size_t overflow of counts outside the model",
     "extraction: ExtrOcamlBasic only; Z/N/positive/Q stay Coq inductives",
 ])
